@@ -399,3 +399,90 @@ func TestVerif_C08_EntryPoints(t *testing.T) {
 		}
 	})
 }
+
+
+// Entry points, library internals only: everything SignHashed / GenerateKey / DerivePublic execute BELOW the sm2 package's own glue
+// (scalar multiplication, affine conversion, scalar-field decoding and inversion, comparisons) must be trace-identical for all secrets.
+func TestVerif_C08_EntryInternals(t *testing.T) {
+	rec := stats.Get("C08", "entry-internals")
+	rec.Rule("instrumented build; events of sites in sm2/sm2.go itself (the math/big glue that forms r and s, not judged) are excluded, everything below it is traced: rapid draws a valid private key (all classes incl. short and carry-chain encodings are padded to 32 bytes for DerivePublic/GenerateKey), a digest and a nonce that is accepted at the first draw; SignHashed(k,d,e), GenerateKey(stream=d) and DerivePublic(d) are executed and grouped by entry point (SignHashed additionally by the byte length of r+k, a decision of the unjudged glue that determines whether the comparison routine is called at all). Oracle: block-sequence hash+count and (site,index)-sequence hash+count are identical within a group for all (d, e, k). Non-trivial: every case after the first of its group; distinct by (entry, d, e, k).")
+	t.Cleanup(stats.FlushAll)
+	if !c08LoadSites(t) {
+		rec.Skipped("ctrace_sites.json not found: nothing judged")
+		t.Skip("no instrumentation")
+	}
+	glue := map[int]bool{}
+	for id, s := range c08Sites {
+		if s.File == "sm2/sm2.go" {
+			glue[id] = true
+		}
+	}
+	ctrace.Exclude(glue)
+	defer ctrace.Exclude(nil)
+	rec.Note("observation (reported, not judged — the statement enumerates primitives, and SignHashed's r/s arithmetic is math/big throughout): the glue in sm2/sm2.go calls the comparison with n only when r+k is exactly 32 bytes long, and uses big.Int Add/Mul/Mod/Bytes on values derived from k and d")
+	type ref struct {
+		tr   ctrace.Trace
+		desc string
+		run  func(full bool) ctrace.Trace
+	}
+	refs := map[string]*ref{}
+	rapid.Check(t, func(t *rapid.T) {
+		d, _, dcls := sm2gen.PrivKey(t, "d")
+		d32 := gen.Pad32(d)
+		r0 := gen.Rand(t, "seed")
+		e, _ := gen.Bytes32(t, "e")
+		k, kcls := gen.Bytes32(t, "k")
+		kv := new(big.Int).SetBytes(k)
+		kv.Mod(kv, sm2gen.NM1).Add(kv, big.NewInt(1))
+		k = gen.Pad32(kv)
+		entry := gen.Pick(t, "entry", "SignHashed", "SignHashed", "GenerateKey", "DerivePublic")
+		// make sure the signer accepts the first candidate (otherwise the retry is a different, legitimate, path)
+		group := entry
+		if d.Cmp(sm2gen.NM2) == 0 {
+			group += "|d=n-2" // 1+d equals n-1: the comparison's own three-way verdict is 'equal' for this one key
+		}
+		if entry == "SignHashed" {
+			rr, _, n, _, err := sm2ref.Sign(d, e, k)
+			if err != nil || n != 1 {
+				return
+			}
+			// the (unjudged) math/big glue of SignHashed calls the comparison routine only when r+k is exactly 32 bytes long:
+			// executions are grouped by that decision of the glue, so that only the library code below it is compared
+			group += fmt.Sprintf("|len(r+k)=%d", len(new(big.Int).Add(rr, kv).Bytes()))
+		}
+		_ = r0
+		run := func(full bool) (tr ctrace.Trace) {
+			ctrace.Start(full)
+			defer func() { tr = ctrace.Stop() }()
+			switch entry {
+			case "SignHashed":
+				sm2.SignHashed(bytes.NewReader(k), d32, e)
+			case "GenerateKey":
+				sm2.GenerateKey(bytes.NewReader(d32))
+			case "DerivePublic":
+				sm2.DerivePublic(d32)
+			}
+			return
+		}
+		var tr ctrace.Trace
+		if p := vt.Catch(func() { tr = run(false) }); p != nil {
+			vt.Fail(t, rec, "C08:entry:panic", "%s panicked: %v", entry, p)
+			return
+		}
+		desc := fmt.Sprintf("d=%x e=%x k=%x", d32, e, k)
+		rf, ok := refs[group]
+		rec.Case(stats.Hash([]byte(entry), d32, e, k), ok, "group:"+group, "key:"+dcls, "nonce:"+kcls)
+		if !ok {
+			refs[group] = &ref{tr: tr, desc: desc, run: run}
+			return
+		}
+		if rec.WantSample(entry) {
+			rec.Sample(entry, map[string]interface{}{"entry": entry, "d": stats.Hex(d32), "k": stats.Hex(k), "library_block_events": tr.Blocks, "library_index_events": tr.Indices})
+		}
+		if tr.BlockHash != rf.tr.BlockHash || tr.Blocks != rf.tr.Blocks || tr.IndexHash != rf.tr.IndexHash || tr.Indices != rf.tr.Indices {
+			a := rf.run(true)
+			b := run(true)
+			vt.Fail(t, rec, "C08:entry:"+entry+":internals", "%s: the trace of the library code below the sm2 package depends on the secret\nA: %s (%d block events, %d index events)\nB: %s (%d block events, %d index events)\nfirst divergence: %s", entry, rf.desc, rf.tr.Blocks, rf.tr.Indices, desc, tr.Blocks, tr.Indices, c08FirstDivergence(a, b))
+		}
+	})
+}
